@@ -1,7 +1,8 @@
 (** C08 — data already present in the old build is not sent again.
     Only statements, [exact], and [Print Assumptions].  Model: the C11 model of the differ
     (Wsync/{Weak,Diff,Library,Sign}.v) and Wsync/Account.v (pwr/diff.go makeOpsWriter);
-    proofs: Wsync/IdenticalProofs.v, LibraryProofs.v, AccountProofs.v, C08Theorems.v.
+    proofs: Wsync/IdenticalProofs.v, LibraryProofs.v, AccountProofs.v, C08Theorems.v; for the edit
+    bound Wsync/EditSpec.v (vocabulary), SyncProofs.v, PieceProofs.v, EditProofs.v, C08EditTheorems.v.
 
     [account (Z.of_N bs) (sizes_of olds) (0,0) (map aop_of ops) = Some (reused, fresh)] are the
     ReusedBytes / FreshBytes counters of DiffContext after the operations [ops] of one file. *)
@@ -46,22 +47,21 @@ Theorem accounting :
 Proof. exact accounting_lemma. Qed.
 Print Assumptions accounting.
 
-(** The edit bound, full statement (NOT proved):
+(** The edit bound.  Full statement:
 
       edits_fresh_bound : src is obtained from olds[f] by k localized edits introducing n bytes,
         no two consecutive windows of src have equal weak hashes (the differ skips the lookup
-        then), the full blocks of the old files are pairwise distinct and occur in src only
-        where the edits left them ->
+        then) ->
         fresh <= n + (2k + 2) * bs.
 
-    What is proved of it: the case k = 0 ([edits_fresh_bound_partial_k0], a corollary of
-    [identical_file_counters]: fresh = 0), the arithmetic heart of the general case
+    It is proved at the end of this file ([edits_fresh_bound], with [hash_invariant_all_along],
+    [no_missed_match], [fresh_le_unsynced], [pieces_fresh_bound], [edits_fresh_bound_k1] on the
+    way).  The hypothesis "the full blocks of the old files are pairwise distinct and occur in
+    src only where the edits left them" of the earlier formulation turned out not to be needed.
+    The pieces that were proved first stay: the case k = 0 ([edits_fresh_bound_partial_k0], a
+    corollary of [identical_file_counters]: fresh = 0), the arithmetic heart
     ([weak_rolling_eq]: the uint32 rolling update yields the from-scratch weak hash of the shifted
-    window) and its per-iteration form ([rolling_step_correct]: one rolling iteration of the
-    loop's hash block preserves "the state carries the weak hash of the current window").
-    Missing for k > 0: threading that invariant through the whole loop (no_missed_match) and the
-    counting argument over the sync points of src; the bound itself is checked on the
-    implementation by the oracle of the C08 harness (classes edits/k1..k4 and smalledit/k1..k4). *)
+    window) and its per-iteration form ([rolling_step_correct]). *)
 Theorem edits_fresh_bound_partial_k0 :
   forall (H : Type) (shash : list N -> H) (heqb : H -> H -> bool) (bs maxData : N)
          (olds : list (list N)) (src : list N) (pref : option N) (f : N),
@@ -103,3 +103,157 @@ Example identical_example :
   diff_ops (fun b : list N => b) nlist_eqb 2 3 [[7;7;7;7;7]; [1;2;3;4;5]] [1;2;3;4;5] None
   = Some [OpRange 1 0 3].
 Proof. vm_compute. reflexivity. Qed.
+
+(** * The edit bound for k >= 1 edits
+
+    Vocabulary ([Wsync/EditSpec.v]): [fresh_of ops] = data bytes of [ops]; [no_weak_repeat bs src] =
+    no two consecutive full windows of [src] have the same weak hash (the visible form of "high-
+    entropy content": [ComputeDiff] skips the lookup of a window whose rolled hash equals the
+    previous one); [not_skipped bs src q] = the same at the single window [q];
+    [old_block_at bs olds src q] = the full window of [src] at [q] has the content of a complete
+    block of some old file; [sync_points bs olds src qs] = [qs] are non-overlapping such windows,
+    none skipped; [apply_edits es old = (src, n)] = [src] results from [old] by the edits [es]
+    (overwrite / insert / delete of any length at any offset, one after the other, clipped like the
+    generator [c08EditAt] of the harness) which introduce [n] bytes; pieces = a source given as
+    a sequence of fresh bytes and stretches copied from old files.
+    Bytes are [< 2^32] and [bs < 2^32] (the uint32 arithmetic of the rolling hash). *)
+From Wharf Require Import Wsync.EditSpec Wsync.C08EditTheorems.
+
+(** (1) [rolling_step_correct] threaded through the whole loop.  At the head of every iteration
+    (any number [n] of iterations from the initial state) a state that is rolling carries the weak
+    hash of the full window one byte before the current one and the byte that leaves; and after
+    every iteration that is not the last run, [beta] is the weak hash (as computed at signing
+    time) of the window that iteration looked up. *)
+Theorem hash_invariant_all_along :
+  forall (H : Type) (shash : list N -> H) (heqb : H -> H -> bool) (bs maxData : N)
+         (olds : list (list N)) (src : list N) (pref : option N),
+    0 < bs -> 0 < maxData -> bs < W32 -> (forall x y, heqb x y = true <-> x = y) ->
+    strong_injective shash bs olds src -> Forall (fun x => x < W32) src ->
+    forall n : N,
+    let lookup := lookup_in heqb (sign_all shash bs 0 olds) pref (fun a l => shash (sub src a l)) in
+    let s := N.iter n (step bs maxData (get_of src) (len src) lookup) init in
+    lastRun s = false ->
+    (rolling s = true ->
+       1 <= base s + sumTail s /\
+       (beta s, beta1 s, beta2 s) = bhash (window (get_of src) (base s + sumTail s - 1) bs) /\
+       aPop s = get_of src (base s + sumTail s - 1)) /\
+    (lastRun (refill bs maxData (len src) s) = false ->
+       beta (step bs maxData (get_of src) (len src) lookup s) = weak_of (sub src (base s + sumTail s) bs)).
+Proof. exact hash_invariant_all_along_lemma. Qed.
+Print Assumptions hash_invariant_all_along.
+
+(** (2) no match is missed: in an iteration that is not the last run (the window is full), a
+    window that holds a complete block of an old file and is not skipped by the [β == oldβ]
+    shortcut makes the iteration enqueue a one-block range with exactly that content, and the
+    window moves on by a block. *)
+Theorem no_missed_match :
+  forall (H : Type) (shash : list N -> H) (heqb : H -> H -> bool) (bs maxData : N)
+         (olds : list (list N)) (src : list N) (pref : option N),
+    0 < bs -> 0 < maxData -> bs < W32 -> (forall x y, heqb x y = true <-> x = y) ->
+    strong_injective shash bs olds src -> Forall (fun x => x < W32) src ->
+    forall n : N,
+    let lookup := lookup_in heqb (sign_all shash bs 0 olds) pref (fun a l => shash (sub src a l)) in
+    let s := N.iter n (step bs maxData (get_of src) (len src) lookup) init in
+    let p := base s + sumTail s in
+    lastRun s = false -> lastRun (refill bs maxData (len src) s) = false ->
+    old_block_at bs olds src p -> not_skipped bs src p ->
+    exists f i e,
+      em (step bs maxData (get_of src) (len src) lookup s) = enqueue e (OpRange f i 1) /\
+      base (step bs maxData (get_of src) (len src) lookup s) + sumTail (step bs maxData (get_of src) (len src) lookup s) = p + bs /\
+      exists old, nth_error olds (N.to_nat f) = Some old /\ bs * i + bs <= len old /\
+                  sub old (bs * i) bs = sub src p bs.
+Proof. exact no_missed_match_lemma. Qed.
+Print Assumptions no_missed_match.
+
+(** ... and an iteration is not the last run as long as its window starts at least two blocks
+    less one byte before the end of the source (reads end on multiples of the block size) *)
+Theorem not_last_run_far_from_end :
+  forall (H : Type) (shash : list N -> H) (heqb : H -> H -> bool) (bs maxData : N)
+         (olds : list (list N)) (src : list N) (pref : option N),
+    0 < bs -> 0 < maxData -> bs < W32 -> (forall x y, heqb x y = true <-> x = y) ->
+    strong_injective shash bs olds src -> Forall (fun x => x < W32) src ->
+    forall n : N,
+    let lookup := lookup_in heqb (sign_all shash bs 0 olds) pref (fun a l => shash (sub src a l)) in
+    let s := N.iter n (step bs maxData (get_of src) (len src) lookup) init in
+    lastRun s = false -> base s + sumTail s + 2 * bs <= len src + 1 ->
+    lastRun (refill bs maxData (len src) s) = false.
+Proof. exact not_last_run_lemma. Qed.
+Print Assumptions not_last_run_far_from_end.
+
+(** the counting argument: whatever non-overlapping sync points [qs] the source has w.r.t. the
+    old files, all of them but one (the last run) are worth a block that is not sent:
+    FreshBytes + bs * (|qs| - 1) <= size of the new file.  No assumption on how [src] came
+    about, on other occurrences of old blocks, or on [maxData] (splitting data operations does
+    not change the byte count; the buffer wrap is covered by the loop invariant of C11). *)
+Theorem fresh_le_unsynced :
+  forall (H : Type) (shash : list N -> H) (heqb : H -> H -> bool) (bs maxData : N)
+         (olds : list (list N)) (src : list N) (pref : option N) (qs : list N),
+    0 < bs -> 0 < maxData -> bs < W32 -> (forall x y, heqb x y = true <-> x = y) ->
+    strong_injective shash bs olds src -> Forall (fun x => x < W32) src ->
+    sync_points bs olds src qs ->
+    forall ops reused fresh, diff_ops shash heqb bs maxData olds src pref = Some ops ->
+      account (Z.of_N bs) (sizes_of olds) (0, 0)%Z (map aop_of ops) = Some (reused, fresh) ->
+      (fresh + Z.of_N bs * (Z.of_N (len qs) - 1) <= Z.of_N (len src))%Z.
+Proof. exact fresh_le_unsynced_Z. Qed.
+Print Assumptions fresh_le_unsynced.
+
+(** a new file assembled from fresh bytes and stretches of old files (any files, any order:
+    edits, moved and duplicated data): FreshBytes <= the fresh bytes + one block for every end of
+    a stretch that is off the block grid of its old file + one block (the last run) *)
+Theorem pieces_fresh_bound :
+  forall (H : Type) (shash : list N -> H) (heqb : H -> H -> bool) (bs maxData : N)
+         (olds : list (list N)) (src : list N) (pref : option N) (pl : list piece),
+    0 < bs -> 0 < maxData -> bs < W32 -> (forall x y, heqb x y = true <-> x = y) ->
+    strong_injective shash bs olds src -> Forall (fun x => x < W32) src -> no_weak_repeat bs src ->
+    Forall (piece_ok olds) pl -> src = flatten olds pl ->
+    forall ops reused fresh, diff_ops shash heqb bs maxData olds src pref = Some ops ->
+      account (Z.of_N bs) (sizes_of olds) (0, 0)%Z (map aop_of ops) = Some (reused, fresh) ->
+      (fresh <= Z.of_N (pieces_fresh pl) + (Z.of_N (pieces_cuts bs pl) + 1) * Z.of_N bs)%Z.
+Proof. exact pieces_fresh_bound_Z. Qed.
+Print Assumptions pieces_fresh_bound.
+
+(** (3) one edit (k = 1) - an overwrite, an insertion or a deletion of any length at any offset:
+    FreshBytes <= introduced + 4 blocks, whether or not the edit shifts the data behind it *)
+Theorem edits_fresh_bound_k1 :
+  forall (H : Type) (shash : list N -> H) (heqb : H -> H -> bool) (bs maxData : N)
+         (olds : list (list N)) (src : list N) (pref : option N) (f : N) (old : list N) (e : edit),
+    0 < bs -> 0 < maxData -> bs < W32 -> (forall x y, heqb x y = true <-> x = y) ->
+    strong_injective shash bs olds src -> Forall (fun x => x < W32) src -> no_weak_repeat bs src ->
+    nth_error olds (N.to_nat f) = Some old -> src = apply_edit e old ->
+    forall ops reused fresh, diff_ops shash heqb bs maxData olds src pref = Some ops ->
+      account (Z.of_N bs) (sizes_of olds) (0, 0)%Z (map aop_of ops) = Some (reused, fresh) ->
+      (fresh <= Z.of_N (introduced e old) + 4 * Z.of_N bs)%Z.
+Proof. exact edits_fresh_bound_k1_Z. Qed.
+Print Assumptions edits_fresh_bound_k1.
+
+(** (4) THE EDIT BOUND, any number of edits: a new file obtained from old file [f] by the edits
+    [es] which introduce [n] bytes, on content without repeated consecutive weak hashes, costs
+    FreshBytes <= n + (2k + 2) * bs  with k = number of edits -
+    independent of the size of the file, of where the edits are and of whether they shift the
+    following data; for every block size, [maxData], preferred file, and other old files. *)
+Theorem edits_fresh_bound :
+  forall (H : Type) (shash : list N -> H) (heqb : H -> H -> bool) (bs maxData : N)
+         (olds : list (list N)) (src : list N) (pref : option N) (f : N) (old : list N) (es : list edit) (n : N),
+    0 < bs -> 0 < maxData -> bs < W32 -> (forall x y, heqb x y = true <-> x = y) ->
+    strong_injective shash bs olds src -> Forall (fun x => x < W32) src -> no_weak_repeat bs src ->
+    nth_error olds (N.to_nat f) = Some old -> apply_edits es old = (src, n) ->
+    forall ops reused fresh, diff_ops shash heqb bs maxData olds src pref = Some ops ->
+      account (Z.of_N bs) (sizes_of olds) (0, 0)%Z (map aop_of ops) = Some (reused, fresh) ->
+      (fresh <= Z.of_N n + (2 * Z.of_nat (length es) + 2) * Z.of_N bs)%Z.
+Proof. exact edits_fresh_bound_Z. Qed.
+Print Assumptions edits_fresh_bound.
+
+(** non-vacuity: a shifting insertion and a deletion on an 11-byte file at bs = 2; every hypothesis
+    of [edits_fresh_bound] holds (the strong hash is the block itself) and 6 data bytes go out *)
+Example edits_example :
+  let old := [1;2;3;4;5;6;7;8;9;10;11] in
+  let src := [1;2;3;50;60;70;4;5;6;8;9;10;11] in
+  apply_edits [Insert 3 [50;60;70]; Delete 9 1] old = (src, 3) /\
+  no_weak_repeat 2 src /\ Forall (fun x => x < W32) src /\
+  strong_injective (fun b : list N => b) 2 [[9;9;9]; old] src /\
+  diff_ops (fun b : list N => b) nlist_eqb 2 3 [[9;9;9]; old] src None
+  = Some [OpRange 1 0 1; OpData 2 3; OpData 5 2; OpRange 1 2 1; OpData 9 1; OpRange 1 4 2].
+Proof.
+  cbv zeta. split; [vm_compute; reflexivity|]. split; [apply nwr_b_sound; vm_compute; reflexivity|].
+  split; [repeat constructor|]. split; [intros f i blk a l _ _ E; exact E|vm_compute; reflexivity].
+Qed.
